@@ -683,3 +683,74 @@ func heldLock(fn *ssa.Function, at ssa.Instruction) (string, ssa.Value) {
 	}
 	return "", nil
 }
+
+// locallyWoken vouches for a receive (or a select with such a receive among its cases) on a channel the waiting
+// function made itself, when a goroutine that the function starts on every path before the wait signals on that
+// channel on every path of its own: the wait lasts as long as that goroutine's work, which the function has
+// started. It returns the reason, or "".
+func locallyWoken(p *an.Prog, in ssa.Instruction) string {
+	fn := in.Parent()
+	var chans []ssa.Value
+	switch x := in.(type) {
+	case *ssa.UnOp:
+		if x.Op == token.ARROW {
+			chans = append(chans, x.X)
+		}
+	case *ssa.Select:
+		for _, stt := range x.States {
+			if stt.Dir == types.RecvOnly {
+				chans = append(chans, stt.Chan)
+			}
+		}
+	}
+	for _, chv := range chans {
+		mk, ok := an.Resolve(chv).(*ssa.MakeChan)
+		if !ok || mk.Parent() != fn {
+			continue
+		}
+		found := ""
+		an.EachInstr(fn, func(g0 ssa.Instruction) {
+			g, ok := g0.(*ssa.Go)
+			if !ok || !an.Dominates(g, in) || found != "" {
+				return
+			}
+			for _, body := range p.Callees(&g.Call) {
+				if body.Blocks == nil || body.Parent() != fn {
+					continue
+				}
+				signals := func(x ssa.Instruction) bool {
+					var ch ssa.Value
+					switch y := x.(type) {
+					case *ssa.Send:
+						ch = y.Chan
+					case ssa.CallInstruction:
+						if b, ok := y.Common().Value.(*ssa.Builtin); ok && b.Name() == "close" {
+							ch = y.Common().Args[0]
+						}
+					}
+					if ch == nil {
+						return false
+					}
+					for _, r := range an.ResolveAll(ch) {
+						if r == ssa.Value(mk) {
+							return true
+						}
+					}
+					return false
+				}
+				first := body.Blocks[0].Instrs[0]
+				all, _ := an.OnAllPathsToExit(first, signals, nil)
+				if signals(first) {
+					all = true
+				}
+				if all {
+					found = "waits for a goroutine it has started itself (" + p.Pos(g.Pos()) + "), which signals on this channel on every path"
+				}
+			}
+		})
+		if found != "" {
+			return found
+		}
+	}
+	return ""
+}
